@@ -1,6 +1,7 @@
 import SR.Props.C01
 import SR.Props.C02
 import SR.Proofs.Checker.Termination
+import SR.Proofs.Checker.SchedTerm
 /-!
 # C05 (checker-machine part) — parallel checking is schedule-independent
 
@@ -67,5 +68,45 @@ theorem C05_progress (s : St σ κ) (hstuck : ∀ c, step P c s = s) : Quiescent
   intro hnq
   obtain ⟨c, hc⟩ := progress (P := P) s hnq
   exact hc (hstuck c)
+
+/-- **The single-threaded executables terminate.**  `runSingle` (the one-thread worker loop of bfs.rs / dfs.rs / on_demand.rs
+    as a scheduler over the machine) takes a `fuel` argument; on a model with finitely many reachable states
+    `3 * mu + 2` iterations of the loop always suffice: the loop has then returned by itself and the state is quiescent.
+    (So the hypothesis `Quiescent (runSingle …)` of the `…_single` theorems is discharged for every such fuel.) -/
+theorem C05_single_thread_terminates {R : List σ} {D : Nat} (hfin : Fin P R D) (d : Discipline) (fuel : Nat)
+    (hfuel : 3 * mu P R D (init P.M P.props P.key) + 2 ≤ fuel) : Quiescent (runSingle P d fuel) := by
+  unfold runSingle run
+  rw [runFrom_schedule]
+  have hpsi : Psi P R D (init P.M P.props P.key, if d == Discipline.ondemand then 0 else blockSize) ≤ fuel := by
+    have := wgt_le (init P.M P.props P.key) (if d == Discipline.ondemand then 0 else blockSize)
+    unfold Psi; simp only; omega
+  have hclean : StopClean (init P.M P.props P.key) := by intro h; simp [init] at h
+  obtain ⟨h1, h2⟩ := iterN_done hfin d fuel _ sinv_init tinv_init hclean hpsi
+  exact quiescent_of_iter_none d _ h2 h1
+
+/-- C01 for the single-threaded executables WITHOUT a termination hypothesis: finite model, enough fuel, no early exit,
+    no fingerprint collision ⇒ the evaluated states are exactly the reachable ones. -/
+theorem C05_single_thread_exact {R : List σ} {D : Nat} (hfin : Fin P R D)
+    (hinj : ∀ a b, P.M.Reach a → P.M.Reach b → P.key a = P.key b → a = b)
+    (d : Discipline) (fuel : Nat) (hfuel : 3 * mu P R D (init P.M P.props P.key) + 2 ≤ fuel)
+    (he : (runSingle P d fuel).early = false) :
+    ∀ t, P.M.Reach t ↔ t ∈ visitedStates (runSingle P d fuel) :=
+  C01.C01_exact_single P d fuel hinj (C05_single_thread_terminates P hfin d fuel hfuel) he
+
+/-! ### Non-vacuity: the 5-state graph of `Props/C01.lean` is finite in the sense of `Fin` (states 0..4, out-degree ≤ 2), so the
+termination theorems apply to it with the explicit bound. -/
+
+example (fuel : Nat) (h : 3 * mu C01.exParams (List.range 5) 2 (init C01.exParams.M C01.exParams.props C01.exParams.key) + 2 ≤ fuel) :
+    Quiescent (runSingle C01.exParams .bfs fuel) := by
+  have exFin : Fin C01.exParams (List.range 5) 2 := by
+    have hclosed : ∀ s, s < 5 → ∀ t ∈ C01.exParams.M.succB s, t < 5 := by decide
+    have hinit : ∀ s ∈ C01.exParams.M.initB, s < 5 := by decide
+    refine ⟨?_, by decide⟩
+    intro s hr
+    rw [List.mem_range]
+    induction hr with
+    | init h => exact hinit _ h
+    | step _ ht ih => exact hclosed _ ih _ ht
+  exact C05_single_thread_terminates C01.exParams exFin .bfs fuel h
 
 end SR.C05M
